@@ -191,6 +191,16 @@ def codec_lines(rng):
         b, exp = cborgen.layout(rng)
         out.append((f"authdata layout {i}", impl.parse_authenticator_data(b)[:80]))
         out.append((f"authdata truncated {i}", impl.parse_authenticator_data(b[: max(0, len(b) - 3)])[:80]))
+    # extension data / key items of every CBOR kind (not only maps), complete and with nothing left over; and the hostile corpus in both slots
+    hdr = bytes(32)
+    key_ = cbor2.dumps({1: 2, 3: -7, -1: 1, -2: bytes(32), -3: bytes(32)})
+    for j, item in enumerate([b"\x80", b"\x82\x01\x02", b"\x40", b"\x43abc", b"\x00", b"\x20", b"\x60", b"\x63abc", b"\xf6", b"\xf5", b"\xf4", b"\xf7", b"\xc1\x00", b"\xd8\x18\x41\x00", b"\xfb" + bytes(8), b"\xa0", b"\xa1\x01\x02", b"\x18\x18"]):
+        out.append((f"authdata ED with item {item.hex()}", impl.parse_authenticator_data(hdr + b"\x81" + b"\x00\x00\x00\x01" + item)[:80]))
+        out.append((f"authdata AT+ED with item {item.hex()}", impl.parse_authenticator_data(hdr + b"\xc1" + b"\x00\x00\x00\x01" + bytes(16) + b"\x00\x02id" + key_ + item)[:80]))
+        out.append((f"authdata AT with key item {item.hex()}", impl.parse_authenticator_data(hdr + b"\x41" + b"\x00\x00\x00\x01" + bytes(16) + b"\x00\x02id" + item)[:80]))
+    for j, item in enumerate(cborgen.hostile_cbor()):
+        if len(item) < 200:
+            out.append((f"authdata ED hostile {j}", impl.parse_authenticator_data(hdr + b"\x81" + b"\x00\x00\x00\x01" + item)[:80]))
     import struct
     for tag in (0x8017, 0x8018, 0x801A, 0x8014):
         b = b"\xffTCG" + struct.pack(">H", tag) + struct.pack(">H", 2) + b"qs" + struct.pack(">H", 4) + b"edat" + bytes(17) + bytes(8) + struct.pack(">H", 34) + b"\x00\x0b" + bytes(32) + struct.pack(">H", 2) + b"qn"
